@@ -5,6 +5,7 @@ import (
 	"fmt"
 	"io"
 	"runtime"
+	"sync"
 
 	lz4 "github.com/pierrec/lz4/v4"
 	"pgregory.net/rapid"
@@ -275,7 +276,12 @@ func readAll(z []byte, rc rcfg, handler func(int)) readResult {
 	if maxBuf > 9<<20 {
 		maxBuf = 9 << 20
 	}
-	buf := make([]byte, maxBuf)
+	bp := readBufPool.Get().(*[]byte)
+	defer readBufPool.Put(bp)
+	if len(*bp) < maxBuf {
+		*bp = make([]byte, maxBuf)
+	}
+	buf := (*bp)[:maxBuf]
 	for i := 0; ; i++ {
 		sz := 4096
 		if len(rc.Sizes) > 0 {
@@ -306,6 +312,8 @@ func readAll(z []byte, rc rcfg, handler func(int)) readResult {
 		}
 	}
 }
+
+var readBufPool = sync.Pool{New: func() interface{} { b := make([]byte, 1<<16); return &b }}
 
 func concOf(n int) int {
 	if n <= 0 {
